@@ -60,6 +60,7 @@ template <class X> void run(Ctx& c, const StrVec& fam) {
     for (const Str& t : fam) {
         std::unique_ptr<UriBox<X>> b(new UriBox<X>());
         if (b->parse(t) != URI_SUCCESS) { c.count("parse_failed"); continue; }
+        if (!b->faithful()) { c.count("skipped_unfaithful_parse"); continue; }
         if (c.rng.chance(1, 4)) b->make_owner();
         comps.push_back(split(t)); snaps.push_back(deep_snapshot<X>(b->u)); box.push_back(std::move(b));
     }
